@@ -126,6 +126,7 @@ def c01_candidates(P, uni, sibling_labels=('e', 'a', 'b', 'c')):
     # ---- repeated references
     _blk(P, [mk_tx([(o_ref, K[0]), (o_ref, K[0])], [(v, K[1])])], 'same-ref-twice-in-tx', out)
     _blk(P, [mk_tx([(o_ref, K[0]), (o_ref, K[0])], [(2 * v, K[1])])], 'same-ref-twice-in-tx-double-value', out)
+    _blk(P, [mk_tx([(o_ref, K[0]), (o_ref, ('second-signature', K[0]))], [(2 * v - 3, K[1])])], 'same-ref-twice-two-distinct-signatures', out)
     _blk(P, [T0, mk_tx([(o_ref, K[0])], [(v - 5, K[2])])], 'same-ref-in-two-txs', out)
     if o1:
         _blk(P, [T2, T0], 'same-ref-in-two-txs-2in', out)
@@ -305,6 +306,10 @@ def c02_candidates(P, uni):
         Tb = mk_tx([(oref(o1[0]), K[1])], [(v1 - 50, K[0])])
         _blk(P, [T_over, Tb], 'overspend-hidden-by-other-fee', out, cb_outs=[(sub, M)])
         _blk(P, [T0, Tb], 'two-fees-exact', out, control=True, cb_outs=[(sub + fee + 50, M)])
+        # the same output spent by the first and the third transaction, the reward claiming the fees of all three
+        T0c = mk_tx([(o_ref, K[0])], [(v - 2 * fee, K[2])])
+        _blk(P, [T0, Tb, T0c], 'output-spent-by-first-and-third-tx-fees-claimed', out, cb_outs=[(sub + fee + 50 + 2 * fee, M)])
+        _blk(P, [T0c, Tb, T0], 'output-spent-by-third-and-first-tx-fees-claimed', out, cb_outs=[(sub + fee + 50 + 2 * fee, M)])
         _blk(P, [T0, Tb], 'two-fees-plus-1', out, cb_outs=[(sub + fee + 51, M)])
         _blk(P, [mk_tx([(o_ref, K[0]), (oref(o1[0]), K[1])], [(v + v1 + 1, K[2])])], 'overspend-2in-by-1', out)
     # ---- value ranges of ordinary outputs
